@@ -10,6 +10,8 @@
                 a system or a zone was read: res = "ok" or the exception type
        "op"     name = "get_state" | "restore": res = "ok" or the exception type;
                 before / after = <<es, hdl, snd, rd, pw, disc>> projected out of the real objects
+       "opx"    as "op", with a failure injected into the operation's body by the harness ("whether or not the
+                operation itself succeeded"); the exception is the harness's own, so it is not a C13a finding
        "nested" as "op", but requested while a restore is in flight (the engine is paused by it)
        "probe"  name = "packet" (a packet of a fresh device), "known" (a packet of a device the
                 gateway was tracking), "send" (a command): res = "ok" | "lost" | exception type
@@ -41,7 +43,7 @@ Add(f, line, cls) == IF cls = "" \/ \E i \in 1..Len(f) : f[i][2] = cls THEN f EL
 Class(e) ==
   LET noSend == B(Traces[tid].nosend)  noDisc == B(Traces[tid].nodisc) IN
   IF e.k = "view" THEN (IF e.res = "ok" THEN "" ELSE "C13a:view-raises:" \o e.name \o ":" \o e.res)
-  ELSE IF e.k = "op" THEN
+  ELSE IF e.k \in {"op", "opx"} THEN    \* opx: the harness made the operation's body raise (injected failure)
      IF ~(SameProj(P(e.after), P(e.before)) /\ Running(P(e.after), noSend, noDisc))
      THEN "C13b:not-running-as-before-after-" \o e.name \o (IF e.res = "ok" THEN "" ELSE "-raised:" \o e.res)
      ELSE ""
